@@ -249,6 +249,30 @@ void mon_qos2_sender(const Run& run, const Ix& ix, Verdicts& v, vu::Result& res)
             if (w.done && !w.result && w.seq_end < next_seq) earlier_written = true;
         }
         if (o.kind != OpKind::pub2) continue;
+        // (c') a successful PUBREC that was delivered for a transmission whose write was reported successful has been
+        // consumed by the operation (the later of the two events hands it over): no PUBLISH of the exchange afterwards
+        {
+            uint64_t consumed_at = UINT64_MAX;
+            for (int ci : pubs) {
+                auto& w = h.writes[h.cpkts[ci].write];
+                if (!(w.done && !w.result)) continue;
+                for (int bi : ix.cpkt_acks[ci]) {
+                    auto& b = h.bpkts[bi];
+                    if (b.pkt.type != ref::PUBREC || b.pkt.rc >= 0x80 || b.delivered_t < 0 || !b.wellformed || b.kind != BKind::normal) continue;
+                    if (b.conn != h.cpkts[ci].conn) continue;
+                    // the connection must still have been alive when both had happened (else the reply is lost with it)
+                    uint64_t at = std::max(b.delivered_seq, w.seq_end);
+                    auto& c = h.conns[b.conn];
+                    if ((c.faulted && c.seq_fault < at) || (c.t_closed >= 0 && c.seq_closed < at)) continue;
+                    consumed_at = std::min(consumed_at, at);
+                }
+            }
+            if (consumed_at != UINT64_MAX) {
+                res.count("pubrec_consumed");
+                for (int ci : pubs) if (h.cpkts[ci].seq > consumed_at)
+                    v.add("C03", "C03:publish-after-consumed-pubrec", op_str(o) + ": PUBLISH transmitted again although a successful PUBREC for a successfully written transmission had been delivered before");
+            }
+        }
         const auto& rels = ix.op_rels[o.id];
         if (rels.empty()) continue;
         res.count("qos2_reached_pubrel");
@@ -404,7 +428,10 @@ void mon_completion(const Run& run, const Ix&, Verdicts& v, vu::Result& res) {
         if (o.completions > 1) v.add("C05", std::string("C05:completed-twice:") + op_kind_name(o.kind), op_str(o) + ": handler invoked " + std::to_string(o.completions) + " times");
         if (o.dropped && !aborted_run) v.add("C05", std::string("C05:handler-destroyed-uninvoked:") + op_kind_name(o.kind), op_str(o) + ": handler destroyed without being invoked");
         if (o.completions && o.depth_at_done > 0) v.add("C05", std::string("C05:completed-inside-initiation:") + op_kind_name(o.kind), op_str(o) + ": handler invoked from inside an initiating call");
-        if (!o.completions && !o.dropped && !aborted_run && run.sc->final_cancel && !o.after_terminal)
+        // a request issued on a client that was not running belongs to the next async_run: owed only if there was one
+        bool owed = !o.after_terminal;
+        if (o.after_terminal) for (auto& r : h.ops) if (r.kind == OpKind::run && r.seq_init > o.seq_init) owed = true;
+        if (!o.completions && !o.dropped && !aborted_run && run.sc->final_cancel && owed)
             v.add("C05", std::string("C05:never-completed:") + op_kind_name(o.kind), op_str(o) + ": handler never invoked although the client was cancelled and destroyed");
         if (o.completions == 1) res.count("ops_completed_once");
     }
